@@ -170,6 +170,7 @@ func (s *stream) tryUnblock() bool {
 	if s == nil {
 		return false
 	}
+	verifhook.Point("stream.tryUnblock")
 
 	s.mu.Lock()
 	// the heartbeat works on a snapshot of blocked streams: the stream may have
